@@ -76,6 +76,14 @@ PROPS = {
                 "and modifier roots; non-trivial = valid call with >= 2 leaves",
         "trust": [], "assumptions": ["root and leaves are terms of the source ontology", "non-empty leaf collection"],
     },
+    "C20": {
+        "subs": [sub("C20", "run_C20", "spec_C20", ["Run.C20"], 400, 4000)],
+        "run_modules": ["C20"],
+        "rule": "one case sweeps ALL ids 0..10^7+1 and the u32 borders on the crate (render, parse, bytes); then batches of 20 ids (uniform, "
+                "full u32 range, powers of ten +-1) rendered by crate and model, and batches of 20 texts from a grammar mixing ASCII, 2/3/4-byte "
+                "characters at every offset, digits, signs, blanks, values around 2^32, lengths 0-40; non-trivial = batch with a multi-byte text, or an id batch",
+        "trust": ["core::str / u32::from_str grammar ('+'? digit+, <= u32::MAX) as documented"], "assumptions": ["input texts are valid UTF-8 (&str)"],
+    },
     "C15": {
         "subs": [sub("C15", "run_C15", "spec_C15", W_IMPORTS + ["Run.C15"], 500, 5000)],
         "run_modules": ["C15"],
